@@ -20,6 +20,7 @@ RULE = ("(a) exhaustive enumeration of a configuration lattice: 16 flag combinat
         "counted) and, for sampled small configurations, an exhaustive one-note-per-(track, pitch, value, bin) sweep: every "
         "emitted token is a vocabulary key. Non-trivial: every vocabulary case (all configurations differ from the two the "
         "suite builds) and closure cases with >= 1 note. Distinct by case digest. exhaustive=true refers to part (a).")
+RULE = RULE + " Rounds e-g: signature ranges excluding 8/8, inputs assembled from Bar objects / a Composition, table integrity after looking up non-members."
 ASSUMPTIONS = ["velocity_bins <= 127", "exceptions other than TokenisationException on deliberately invalid ('wild') input are counted as "
                "inconclusive, not as closure violations"]
 TIERS = {"quick": dict(shards=8, examples=350, enum_shards=8, lattice="quick"),
@@ -156,6 +157,22 @@ def _check_vocab(out, cfg, tok):
             out.fail("size-mismatch", f"{tag} cfg {cfg}: entries {len(d)}, dictionary_size {size}, inverse {len(inv)}")
     keys = list(d)
     if consistent and not out.violations:
+        # a token that is no member (here: a member of a differently configured vocabulary, and plain junk) is looked up /
+        # encoded; whatever that does (KeyError or a fallback id), the table must be the same afterwards
+        snapshot = (dict(d), dict(inv), size)
+        for foreign in (["trk_99-pit_200-val_97-vel_999"], ["no-such-token"], [""]):
+            for f in (lambda: tok.encode(foreign), lambda: tok.dictionary[foreign[0]], lambda: tok.decode([size + 7]),
+                      lambda: tok.inverse_dictionary[size + 7]):
+                try:
+                    f()
+                except Exception:
+                    pass
+        d, inv, size = tok.dictionary, tok.inverse_dictionary, tok.dictionary_size
+        if (dict(d), dict(inv), size) != snapshot:
+            out.fail("table-changed-by-lookup", f"{tag} cfg {cfg}: entries {len(snapshot[0])} -> {len(d)}, inverse {len(snapshot[1])} -> {len(inv)}, "
+                                                f"size {snapshot[2]} -> {size} after looking up non-members")
+            return
+        keys = list(d)
         try:
             ids = tok.encode(keys)
             if tok.decode(ids) != keys:
